@@ -105,7 +105,9 @@ func typed(res *harness.R, entry string, err error, ctx string) string {
 	return problem
 }
 
-var pathMarkers = []string{"accessing '", "in field '", "for key: '"}
+// "for key: '<name>'" (cyclic reference) is not taken: it names the reference
+// that closed the cycle, which is the faulty setting only by coincidence.
+var pathMarkers = []string{"accessing '", "in field '"}
 
 // namedPaths extracts the quoted setting paths an error message names.
 func namedPaths(msg string) []string {
